@@ -108,6 +108,21 @@ definition.  Every rule preserves results, exceptions and evaluation order:
   sets  ``x in <module-level / class-level set or frozenset of str / int constants>`` -> ``PyRt.contains_set`` on the members in
         sorted order (hoisting an inline display into a named constant; iteration order of a set is unobservable through ``in``)
   names renaming a local is invisible already: Lean's ``do`` notation orders the state of a loop by declaration, not by name
+Eighth round (x8; blocks marked `x8`), further normalisations and subset additions, same conditions (results, exceptions,
+evaluation order preserved):
+  N5+ the spliced helper may have *early returns*: ``if c: …; return a`` followed by ``rest`` is read as ``if c: … return a`` /
+      ``else: rest`` (``_x8_tailify``) until every ``return`` is in tail position — none inside a loop / ``try`` / ``with``, no path
+      that falls off the end — and each tail ``return e`` becomes the caller's statement with ``e``; statement forms added:
+      ``raise _h(a)`` and ``xs.append(_h(a))`` (``xs`` a list built in the caller); a ``with`` block without ``as`` and without
+      ``return`` inside may be part of the helper
+  N8  in ``__init__``: ``v = K.__new__(K); v.a = e; self.f = v`` (``v`` used nowhere else) -> ``self.f = K.__new__(K); self.f.a = e``
+  N9  a bare ``self.f: T`` (annotation without value) in a method executes nothing: dropped
+  N10 ``for x in <tuple of ≤ 8 str/int constants, display or module-level>: if c(x): B(x); break`` + ``else: E`` -> the chain
+      ``if c(k1): B(k1) elif … else: E`` (``x`` used only inside the loop, no other ``break`` / ``continue``)
+  ``x in NAMED_SET`` / ``not in`` also in expression position (``return a and x in S``); ``frozenset(K(t) for t in … [if …])``
+  makes the members instances of ``K`` exactly like ``frozenset(map(K, …))`` (class inference of set fields);
+  ``<module-level pattern>.fullmatch(x)`` / ``.match(x)`` in ``parse_wheel_filename`` is the pattern ``names.py`` measures
+  (``Gen.NameTables.wheelName*``: one atom under ``*``; with ``fullmatch`` the anchors are optional)
 Subset additions of x4: list / tuple displays with starred elements (``[*a, x, *b]``: unpacked left to right into a fresh
 list), oracle methods on a local bound once by an oracle constructor (``p = pathlib.PurePosixPath(x)`` … ``p.is_absolute()``),
 ``TABLE[k](a, b)`` and ``k in TABLE`` on a module-level table of callables, ``x = None`` sentinels next to the one binding that
